@@ -319,9 +319,16 @@ func c07loopReturns(c *Ctx, sr *schedRoles) {
 		for _, e := range edges {
 			iff := e.From.Instrs[len(e.From.Instrs)-1].(*ssa.If)
 			if cm := p.NormCmp(iff.Cond, e.Succ == 0); cm != nil && strings.Contains(cm.String(), "base(") && strings.Contains(cm.String(), "#0") {
-				zeroSide := cm.L.String() == "0" || cm.R.String() == "0"
+				zeroSide := (cm.L.String() == "0" && cm.LC == 0) || (cm.R.String() == "0" && cm.RC == 0)
 				if zeroSide && (cm.Op == token.NEQ || cm.Op == token.LSS) && !stop {
 					r.Fail("E1", key+"#idle", p.InstrPos(ret), "the normal return is reachable only after a round that processed something ("+cm.String()+"): once the inputs are closed and empty every round processes nothing, so the discipline never terminates")
+				} else if !stop {
+					// any other test of the processed count must admit 0: processed == 0, processed < c, processed <= c
+					admitsZero := (cm.Op == token.EQL && zeroSide && cm.LC == 0 && cm.RC == 0) ||
+						((cm.Op == token.LSS || cm.Op == token.LEQ) && strings.Contains(cm.L.String(), "base(") && !strings.Contains(cm.R.String(), "base("))
+					if !admitsZero {
+						r.Fail("E1", key+"#idle", p.InstrPos(ret), "the normal return is tied to "+cm.String()+", which a round that processed nothing does not satisfy: once the inputs are closed and empty every round processes nothing, so the discipline never terminates")
+					}
 				}
 			}
 		}
@@ -901,6 +908,38 @@ func allPathsPassAny(b *ssa.BasicBlock, pred func(e CondEdge) bool) bool {
 func c07errChannel(c *Ctx, p *Prog) {
 	r := c.R
 	ai := p.alias()
+	// the overrun fault is raised only when more is in flight than there are handlers: raised on
+	// HandlersQuantity <= busy (all handlers busy - the normal loaded state) it ends a healthy
+	// discipline with a non-nil error
+	for _, fn := range p.errorFuncs("priority") {
+		k := 0
+		for _, b := range fn.Blocks {
+			ret, ok := b.Instrs[len(b.Instrs)-1].(*ssa.Return)
+			if !ok || b == fn.Recover || len(ret.Results) == 0 {
+				continue
+			}
+			ld, isLd := ret.Results[len(ret.Results)-1].(*ssa.UnOp)
+			if !isLd || ld.Op != token.MUL {
+				continue
+			}
+			g, isG := ld.X.(*ssa.Global)
+			if !isG || g.Name() != "ErrQuantityExceeded" {
+				continue
+			}
+			k++
+			okGuard := AllPathsPass(b, func(e CondEdge) bool {
+				iff := e.From.Instrs[len(e.From.Instrs)-1].(*ssa.If)
+				cm := p.NormCmp(iff.Cond, e.Succ == 0)
+				if cm == nil || cm.Op != token.LSS || cm.LC != 0 || cm.RC != 0 {
+					return false
+				}
+				_, path, okp := deepStrip(cm.L).FieldPath()
+				return okp && path[len(path)-1] == "HandlersQuantity" && deepStrip(cm.R).Op != "const"
+			})
+			r.Check(okGuard, "E6", fmt.Sprintf("%s#overrun-guard.%d", p.FnKey(fn), k), p.InstrPos(ret), "ErrQuantityExceeded only under HandlersQuantity < in-flight total",
+				"ErrQuantityExceeded is returned under "+describeEdges(p, DomEdges(b))+", not exactly when more is in flight than HandlersQuantity: a healthy discipline (all handlers busy, or fewer) ends with a non-nil error on Err()")
+		}
+	}
 	for _, d := range p.Discs() {
 		for _, e := range d.Gos {
 			rt := p.Routine(d, e)
